@@ -57,7 +57,7 @@ func (w *simWriter) Write(p []byte) (int, error) {
 type sandbox struct{ root string }
 
 func newSandbox() (*sandbox, error) {
-	root, err := os.MkdirTemp(scratchBase(), "zipsim-")
+	root, err := mkScratch("a")
 	if err != nil {
 		return nil, err
 	}
@@ -293,6 +293,7 @@ func c05Explore(src *choice.Src) *core.Result {
 		return res
 	}
 	defer sb.close()
+	res.Scrub(sb.root)
 	zipFile := filepath.Join(sb.root, "m.zip")
 	if err := os.WriteFile(zipFile, archive, 0o644); err != nil {
 		core.SetHarnessError("c05: " + err.Error())
